@@ -34,9 +34,9 @@ type tamper struct {
 }
 
 type hsTamper struct {
-	Dir   int    // direction of the manipulated handshake message (0: A->B)
-	Op    string // eph-flip eph-replace auth-flip auth-reflect
-	Arg   int
+	Dir int    // direction of the manipulated handshake message (0: A->B)
+	Op  string // eph-flip eph-replace auth-flip auth-reflect
+	Arg int
 }
 
 type dirPlan struct {
@@ -401,14 +401,14 @@ type scDirResult struct {
 }
 
 type scResult struct {
-	harness  string
-	pp       *productPanic
-	errA     error
-	errB     error
-	okA, okB bool
-	pubOK    [2]bool
+	harness   string
+	pp        *productPanic
+	errA      error
+	errB      error
+	okA, okB  bool
+	pubOK     [2]bool
 	hsApplied bool
-	dir      [2]scDirResult
+	dir       [2]scDirResult
 }
 
 func runSC(p *scPlan) (res scResult) {
@@ -903,8 +903,14 @@ func scProperty(t *rapid.T) {
 	nt := nontrivialSC(p) || res.hsApplied
 	cl := scClasses(p, &res)
 	ev.Case(nt, text, cl...)
-	if nt && ev.WantSample(cl[1]) {
-		ev.Sample(cl[1], text)
+	sc := "sc.clean"
+	if p.HS != nil {
+		sc = "sc.handshake-tamper"
+	} else if p.Dir[0].Tamper != nil || p.Dir[1].Tamper != nil {
+		sc = "sc.tamper"
+	}
+	if nt && len(text) < 600 && ev.WantSample(sc) {
+		ev.Sample(sc, text)
 	}
 	for _, f := range judgeSC(p, &res) {
 		ev.Violation(t, f.key, text, "%s", f.msg)
